@@ -485,7 +485,7 @@ package leveldb
 // O3: CURRENT is switched only after the new manifest is flushed and synced; the old manifest is removed only
 // after CURRENT was switched; if CURRENT was not switched nothing of the session state changed.
 //@ func (*session).newManifest
-//@   props C04 C08 C07
+//@   props C04 C08 C07 C19
 //@   mode bv
 //@   at before call storage.Storage.SetMeta#1
 //@     assert [C04,C07:manifest-durable-before-current] calls("(*Writer).Flush") > old(calls("(*Writer).Flush")) && ((s.o.Options != nil && s.o.Options.NoSync) || calls("storage.Syncer.Sync") > old(calls("storage.Syncer.Sync")))
@@ -493,9 +493,10 @@ package leveldb
 //@     assert [C04,C07:current-switched-before-old-manifest-removed] err == nil && calls("storage.Storage.SetMeta") > old(calls("storage.Storage.SetMeta"))
 // C07: the snapshot record lists every table of the version exactly once - the version's tables are added to a
 // record that holds no table yet. (The caller's record is what seeds the file reference counts after this commit: a
-// table listed twice is counted twice and is never removed when a compaction drops it; F20.)
+// table listed twice is counted twice and is never removed when a compaction drops it; F20. C19: such a table
+// survives a clean Close, and the next Recover, which trusts the directory, brings its deleted keys back.)
 //@   at before call (*version).fillRecord#1
-//@     assert [C07:the-snapshot-record-lists-each-table-of-the-version-once] len(rec.addedTables) == 0
+//@     assert [C07,C19:the-snapshot-record-lists-each-table-of-the-version-once] len(rec.addedTables) == 0
 //@   ensures [C04,C08:no-switch-no-change] calls("storage.Storage.SetMeta") == old(calls("storage.Storage.SetMeta")) ==> (err != nil && s.manifest == old(s.manifest) && s.manifestWriter == old(s.manifestWriter) && s.manifestFd.Num == old(s.manifestFd.Num) && s.stSeqNum == old(s.stSeqNum) && s.stJournalNum == old(s.stJournalNum))
 
 // C08 / C11: once the pointer names the new manifest the commit has taken effect - the record is what the next open
